@@ -158,6 +158,30 @@ theorem finallyReplace_counterexample :
 only exception injection in the middle of the write can tell them apart. -/
 theorem finallyReplace_same_ops (w : σ) : finallyBody w ++ finallyCleanup = saveNew w := rfl
 
+/-! ### A refused rename (`os.replace` raises `OSError`) -/
+
+/-- Current code: the error propagates; the directory is a crash state of the save (`b3`), the previous
+snapshot is intact under the advertised name and the new one is complete in `.new`. -/
+theorem refused_replace_safe (fs : FS σ) (v w : σ) (hb : fs.base = .complete v) :
+    refusedAt fs w ∈ crashStates fs (saveNew w) ∧ (refusedAt fs w).base = .complete v ∧
+      (refusedAt fs w).new = .complete w := by
+  refine ⟨?_, ?_, ?_⟩
+  · rw [crashStates_saveNew]
+    simp [refusedAt, runOps, applyOp, FS.set, FS.get]
+  · simpa [refusedAt, runOps, applyOp, FS.set, FS.get] using hb
+  · simp [refusedAt, runOps, applyOp, FS.set, FS.get]
+
+/-- Copy fallback after a refused rename (round-5 seed v05-C27): killed right after the fallback opened the
+advertised file for writing, `base` is truncated and the previous snapshot is gone (the new one is still
+complete — but only under the temporary name). An undisturbed fallback ends like a normal save. -/
+theorem copyFallback_counterexample :
+    (⟨.part, .complete 2, .absent⟩ : FS Nat) ∈
+        crashStates (refusedAt ⟨.complete 1, .absent, .absent⟩ 2) (copyFallback 2) ∧
+      load (⟨.part, .complete 2, .absent⟩ : FS Nat) = none ∧
+      runOps (refusedAt (⟨.complete 1, .absent, .absent⟩ : FS Nat) 2) (copyFallback 2) =
+        runOps ⟨.complete 1, .absent, .absent⟩ (saveNew 2) := by
+  decide
+
 /-! ### Resuming from a file called `….new` (names coincide) -/
 
 /-- Found on the unchanged tree: after `MPSBackend.resume("x.new")` every autosave is written in
